@@ -132,7 +132,7 @@ impl<'a> Selector<'a> {
         let start_pos = if let Some(Path::Current) = paths.first() {
             current.expect("missing current position").clone()
         } else {
-            Position::Container((0, root.len()))
+            Self::root_position(root)
         };
         poses.push_back(start_pos);
 
@@ -171,6 +171,21 @@ impl<'a> Selector<'a> {
             }
         }
         Ok(poses)
+    }
+
+    // The position of the root: a scalar document is a scalar header followed by one
+    // JEntry and its data, so its value is a scalar position like any other scalar.
+    fn root_position(root: &[u8]) -> Position {
+        if let Ok((rest, (ty, _))) = decode_header(root) {
+            if ty == SCALAR_CONTAINER_TAG {
+                if let Ok((_, (jty, jlength))) = decode_jentry(rest) {
+                    if jty != CONTAINER_TAG {
+                        return Position::Scalar((jty, 8, jlength));
+                    }
+                }
+            }
+        }
+        Position::Container((0, root.len()))
     }
 
     fn select_path(
@@ -522,7 +537,7 @@ impl<'a> Selector<'a> {
                 if let Some(Path::Current) = paths.first() {
                     poses.push_back(pos.clone());
                 } else {
-                    poses.push_back(Position::Container((0, root.len())));
+                    poses.push_back(Self::root_position(root));
                 }
 
                 for path in paths.iter().skip(1) {
